@@ -625,7 +625,7 @@ func c07Replay(check string, raw json.RawMessage) ([]disc, error) {
 	}
 	if check == "gated" {
 		ds, _, _ := c07Gated(rep.Case)
-		return c07Filter(ds), nil
+		return c07Classify(rep.Case, c07Filter(ds)), nil
 	}
 	if len(rep.History) > 0 {
 		// schedule-dependent failure: the reproducible unit is the recorded history
@@ -634,10 +634,10 @@ func c07Replay(check string, raw json.RawMessage) ([]disc, error) {
 			e.bodyOK = e.Note == "" || strings.HasPrefix(e.Note, "version ID")
 		}
 		ds, _ := c07Judge(rep.Case, rep.History)
-		return c07Filter(ds), nil
+		return c07Classify(rep.Case, c07Filter(ds)), nil
 	}
 	ds, _, _ := c07Exec(rep.Case)
-	return c07Filter(ds), nil
+	return c07Classify(rep.Case, c07Filter(ds)), nil
 }
 
 func c07Filter(ds []disc) []disc {
